@@ -14,6 +14,7 @@ use std::collections::{BTreeSet, HashMap};
 use std::io::Write;
 
 const E9: u64 = 1_000_000_000;
+static OUTAGE_ARMED: std::sync::atomic::AtomicBool = std::sync::atomic::AtomicBool::new(false);
 static HEALED: std::sync::atomic::AtomicBool = std::sync::atomic::AtomicBool::new(false);
 
 struct CallInfo {
@@ -127,6 +128,9 @@ pub fn main(args: &[String]) -> i32 {
     let fault_at: i64 = o.num("faultat", -1i64);
     let fault_mode: u8 = o.num("faultmode", 1u8);
     let fault_from = o.num("faultfrom", 0u32) == 1;
+    // mode 3 only: the outage begins after the first acknowledged flush (there are durable generations to lose)
+    let outage_after_flush = o.num("outageafterflush", 0u32) == 1;
+    OUTAGE_ARMED.store(false, std::sync::atomic::Ordering::SeqCst);
     let fault_count: i64 = o.num("faultcount", 1i64);
     let nested_max: usize = o.num("nested", 0);
     if o.num("forcesync", 0u32) == 1 {
@@ -139,6 +143,7 @@ pub fn main(args: &[String]) -> i32 {
                 // determinate outage: every record write of a batch fails, clean-up, journal, marker and
                 // metadata writes succeed
                 return if idx as i64 >= fault_at && _kind == "write" && _sector >= 16 && obs::in_batch()
+                    && (!outage_after_flush || OUTAGE_ARMED.load(std::sync::atomic::Ordering::SeqCst))
                     && !HEALED.load(std::sync::atomic::Ordering::SeqCst) { 1 } else { 0 };
             }
             if hit && !HEALED.load(std::sync::atomic::Ordering::SeqCst) { fault_mode } else { 0 }
@@ -221,6 +226,7 @@ pub fn main(args: &[String]) -> i32 {
     }
     let sessions: usize = o.num("sessions", 1);
     let futurepct: u32 = o.num("futurepct", 0);
+    let bytes_pct: u32 = o.num("bytespct", 40u32).min(100);
     let mut prev_raw: Vec<RawEv> = Vec::new();
     let mut restart_reports: Vec<Value> = Vec::new();
     for session in 0..sessions {
@@ -309,7 +315,7 @@ pub fn main(args: &[String]) -> i32 {
                 }
             }
             obs::api("api_call", &key, call_idx, 0, 0);
-            let as_bytes = rng.random_bool(if fmt == 1 && use_ttl { 0.5 } else { 0.4 });
+            let as_bytes = rng.random_bool(if bytes_pct != 40 { bytes_pct as f64 / 100.0 } else if fmt == 1 && use_ttl { 0.5 } else { 0.4 });
             if fmt == 1 && use_ttl && rng.random_bool(0.5) { ts_choice = None; }
             let short = ts_choice.is_none() && rng.random_bool(0.5);
             let res = match (use_ttl, as_bytes) {
@@ -383,6 +389,7 @@ pub fn main(args: &[String]) -> i32 {
             let res = store.flush();
             flushes.push(FlushInfo { ok: res.is_ok(), snap: snapshot(&store, &keys) });
             obs::api("flush_end", &[], id, res.is_ok() as u64, 0);
+            if res.is_ok() && outage_after_flush && !cur_val.is_empty() { OUTAGE_ARMED.store(true, std::sync::atomic::Ordering::SeqCst); }
             if fault_at >= 0 || readcheck {
                 // C09: reads keep returning the latest accepted values from memory
                 // (C08, --readcheck: on a device that runs full, offloaded and deferred values too)
